@@ -128,7 +128,10 @@ def _write(c):
     os.makedirs(d)
     world = c['world']
     g, a, p = G.write_world(world, d)
-    if c.get('gtf_lines') is not None:          # mutated / malformed GTF text supplied by the harness
+    if c.get('gtf_text') is not None:           # exact file content (UTF-8 bytes) supplied by the harness
+        with open(a, 'wb') as f:
+            f.write(c['gtf_text'].encode('utf-8'))
+    elif c.get('gtf_lines') is not None:        # mutated / malformed GTF lines supplied by the harness
         with open(a, 'w') as f:
             f.write('\n'.join(c['gtf_lines']) + '\n')
     return d, g, a, p
@@ -219,12 +222,29 @@ def _do_world(c, d, gpath, apath, ppath):
     a2.init_handle(apath)
     a2.load_index(Path(apath), source=a1.source)
     disk['idx'] = run_history(a2, c['hist']['idx'], None)
-    if c['hist'].get('bad') is not None:
+    # the pointer files as written (key, start, end, transcripts / coding flag)
+    out['idx'] = {'g': [], 't': []}
+    with open(gene_idx, 'rt') as h:
+        for line in h:
+            f = line.rstrip('\n').split('\t')
+            out['idx']['g'].append([f[0], int(f[1]), int(f[2]), sorted(x for x in f[3].split(',') if x)])
+    with open(tx_idx, 'rt') as h:
+        for line in h:
+            f = line.rstrip('\n').split('\t')
+            out['idx']['t'].append([f[0], int(f[1]), int(f[2]), f[3]])
+    for hname, hist in c['hist'].items():
+        if hname in ('gen', 'idx'):
+            continue
         a3 = GenomicAnnotationOnDisk()
-        a3.generate_index(apath)
-        if proteome is not None:
-            a3.check_protein_coding(proteome, True)
-        disk['bad'] = run_history(a3, c['hist']['bad'], None)
+        if hname.startswith('idx'):             # fresh annotation from the idx files
+            a3.init_handle(apath)
+            a3.load_index(Path(apath), source=a1.source)
+        else:                                   # fresh annotation from generate_index
+            a3.generate_index(apath)
+            if proteome is not None:
+                a3.check_protein_coding(proteome, True)
+        disk[hname] = run_history(a3, hist, None)
+        del a3
     # sequences through the on-disk annotation (exercises the cache from the API side)
     dseq = {}
     for gene in world['genes']:
@@ -242,7 +262,7 @@ def _do_world(c, d, gpath, apath, ppath):
     try:
         GtfIO.write(buf, anno)
         rt_path = os.path.join(d, 'roundtrip.gtf')
-        with open(rt_path, 'w') as f:
+        with open(rt_path, 'w', encoding='utf-8') as f:
             f.write(buf.getvalue())
         anno2 = GenomicAnnotation()
         anno2.dump_gtf(rt_path)
